@@ -91,7 +91,7 @@ class Prop(BaseProp):
             if N == 2:
                 return ctx.call(fn, sts[0], sts[1], **kw)
             if idx is not None:
-                return ctx.call(fn, sts, indices=idx, **kw)
+                return ctx.call(fn, sts, indices=common.vary_indices(ctx, idx), **kw)
             return ctx.call(fn, sts, **kw)
         ctx.sample({"trains": tr, "edges": [ts, te], "kw": kwc, "interval": iv, "indices": case.get("idx")})
         tol = 1e-9 * max(1.0, (te - ts) / float(total_len))
